@@ -3,11 +3,11 @@ package main
 // The per-property check command used by MANIFEST.json.
 
 import (
-	"os/exec"
 	"encoding/json"
 	"flag"
 	"fmt"
 	"os"
+	"os/exec"
 	"path/filepath"
 	"sort"
 	"strconv"
@@ -383,14 +383,14 @@ func cmdCheck(args []string) int {
 		// not part of the proved set: the proof claim of this run covers the other obligations only
 		"obligations": nObl - len(knownHit), "discharged": nDis,
 		"obligations_open_as_known_findings": len(knownHit),
-		"checker_cmd":  fmt.Sprintf("/verif/bin/check %s --tier %s  (govc: go/ssa -> weakest-precondition VCs -> z3 4.8.12 | z3 5.1.0 | cvc5 1.0.3)", *prop, *tier),
-		"trusted_base": trusted, "samples": samples, "functions_under_contract": fnNames,
+		"checker_cmd":                        fmt.Sprintf("/verif/bin/check %s --tier %s  (govc: go/ssa -> weakest-precondition VCs -> z3 4.8.12 | z3 5.1.0 | cvc5 1.0.3)", *prop, *tier),
+		"trusted_base":                       trusted, "samples": samples, "functions_under_contract": fnNames,
 		"discharged_by": bySolver, "solver_seconds_total": round2(solverSecs), "load_seconds": round2(loadS),
 		"known_findings_reported": knownHit, "failed_obligations": failures, "untranslatable": unsup,
-		"explanation": lv.Expl,
-		"bounded_standins": bounded,
+		"explanation":                      lv.Expl,
+		"bounded_standins":                 bounded,
 		"confirmed_by_two_or_more_solvers": nCross,
-		"rule":        "one SMT query per named obligation generated from the SSA of /repo's working tree; an obligation counts as discharged only if a solver answers unsat; obligations that fail and are listed in /verif/known_findings.json as open findings are counted under obligations_open_as_known_findings, not under obligations",
+		"rule":                             "one SMT query per named obligation generated from the SSA of /repo's working tree; an obligation counts as discharged only if a solver answers unsat; obligations that fail and are listed in /verif/known_findings.json as open findings are counted under obligations_open_as_known_findings, not under obligations",
 	}
 	ev := map[string]interface{}{
 		"property_id": *prop, "tier": *tier, "seed": seed, "level": lv.Level, "coverage": cov,
@@ -612,7 +612,6 @@ func parseModel(s string) map[string]string {
 	}
 	return out
 }
-
 
 // runBoundedRecord runs the bounded enumeration test for the trusted functions buildRecordCodec and schemaForStruct
 // against the real code of the working tree (go test -overlay; nothing is written into the repository).
